@@ -5,3 +5,4 @@ import SqLemmas.ParseSpec
 import SqLemmas.ParseComplete
 import SqLemmas.ParseLayout
 import SqLemmas.ParseSound
+import SqLemmas.ParseNames
